@@ -73,9 +73,9 @@ def rcolor(rng):
     if r < 5:
         return "#" + rrgba(rng)
     if r < 7:
-        return "p%d" % rng.choice([0, 1, 2, 31, 62, 63, rng.below(64)])
+        return "p%d" % rng.choice([0, 1, 2, 31, 62, 63, rng.below(64), rng.choice([64, 69, 127, 128, 197, 255])])
     if r < 9:
-        return "c%d" % rng.choice([0, 1, 2, 31, 62, 63, rng.below(64)])
+        return "c%d" % rng.choice([0, 1, 2, 31, 62, 63, rng.below(64), rng.choice([64, 69, 127, 128, 197, 255])])
     return "b%02x%02x%02x" % (rng.choice([0, 1, 64, 127, 128, 191, 254, 255, rng.below(256)]), rng.below(256), rng.below(256))
 
 
@@ -106,10 +106,19 @@ def rpalette(rng, premul=True, default_ok=True):
     return ",".join(ents) if ents else "-"
 
 
+EXTREME = [0x7f7fffff, 0xff7fffff, 0x7f000000, 0xff000000, 0x7effffff, 0xfeffffff, 0x7f61b1e6, 0xff61b1e6,
+           0x00000000, 0x80000000, 0x00000001, 0x80000001, 0x00800000, 0x80800000, 0x3f800000, 0xbf800000]
+
+
 def rviewbox(rng, valid=True):
-    r = rng.below(6)
+    r = rng.below(7)
     if r == 0:
         return ["c2000000", "c2000000", "42000000", "42000000"]
+    if r == 6:
+        # finite coordinates of extreme magnitude: the width / height may overflow float32 although every corner is finite
+        xs = sorted((C.bits_f32(rng.choice(EXTREME)) for _ in range(2)))
+        ys = sorted((C.bits_f32(rng.choice(EXTREME)) for _ in range(2)))
+        return [C.h32(C.f32_bits(xs[0])), C.h32(C.f32_bits(ys[0])), C.h32(C.f32_bits(xs[1])), C.h32(C.f32_bits(ys[1]))]
     while True:
         if r < 4:
             xs = sorted(rng.range(-300, 300) / 2.0 for _ in range(2))
